@@ -392,7 +392,7 @@ class Run:
         return sites
 
     # -- K4
-    def gate(self, rule, fn, sink, groups, descr=None, min_sinks=1, starts=(0,)):
+    def gate(self, rule, fn, sink, groups, descr=None, min_sinks=1, starts=(0,), per_iteration=False):
         """Every path from entry to `sink` in `fn` crosses an accepting edge of every group
         (a group is a list of guards: any-of)."""
         body = fn if not isinstance(fn, str) else self.body(rule, fn)
@@ -426,6 +426,16 @@ class Run:
             reach = g.reach(starts, cut=cut)
             bad = sinks & reach
             details.append({"guard": label, "sites": nsites, "accept_edges": len(cut)})
+            if per_iteration and not bad:
+                # the guard must be re-evaluated on every cycle through the sink (loop bodies)
+                for sk in sinks:
+                    nxt = tuple(d for d, _ in g.succ[sk])
+                    if sk in g.reach(nxt, cut=cut):
+                        ok = False
+                        self.viol(rule, "ungated-iteration:%s!%s" % (sink.descr(), label),
+                                  "`%s` can be reached again in %s (next loop iteration) without re-passing `%s`" % (sink.descr(), body.path, label),
+                                  body, g.term(sk).get("l"))
+                        break
             if bad:
                 ok = False
                 p = g.path(starts, bad, cut=cut)
